@@ -92,6 +92,7 @@ type adapter struct {
 	height   int
 	nbuild   int
 	nbeh     int
+	dirty    bool
 	recycle  int
 }
 
@@ -173,7 +174,7 @@ func (a *adapter) init() {
 	a.add("Z", nil, common.Address{})
 	// initial balances in LEMO; the seed moves them a little around the 200-LEMO vote boundary
 	d := (a.seed % 3) * 4
-	a.initBal = map[string]int64{"a1": 405 + d, "a2": 190 - d, "a3": 250 + d, "a4": 1000, "I": 5 - d, "M1": 600, "M2": 600}
+	a.initBal = map[string]int64{"a1": 405 + d, "a2": 190 - d, "a3": 250 + d, "a4": 1000, "I": 13 - d, "M1": 600, "M2": 600}
 	a.gen = a.w.NewNode(filepath.Join(a.dir, "gen"))
 	a.buildSetup()
 }
@@ -383,7 +384,8 @@ func (a *adapter) Reset(init map[string]tla.Value) (engine.Fields, error) {
 	if a.w == nil {
 		a.init()
 	}
-	if a.B == nil || a.nbeh%a.recycle == 0 {
+	if a.B == nil || a.dirty || a.nbeh%a.recycle == 0 {
+		a.dirty = false
 		if a.B != nil {
 			a.B.Destroy()
 			a.V.Destroy()
@@ -601,6 +603,13 @@ func (a *adapter) logBlock(fl engine.Fields, db *store.ChainDatabase, blk *types
 }
 
 func (a *adapter) Apply(s engine.Step) (engine.Fields, error) {
+	// a panic of the code under test is logged by the engine; the nodes it happened on are not used again
+	defer func() {
+		if r := recover(); r != nil {
+			a.dirty = true
+			panic(r)
+		}
+	}()
 	fl := engine.Fields{}
 	ar := s.Act.Args
 	str := func(i int) string { return ar[i].S() }
